@@ -216,7 +216,7 @@ func init() {
 				for _, b := range list {
 					bn = append(bn, Rec{"name": chars(b.Name), "display": b.Meta.Display})
 				}
-				return []Rec{{"kind": "userdict", "sub": "builtinseq", "uattrs": []Rec{}, "uchords": []Rec{}, "bnames": bn, "uses": []Rec{},
+				return []Rec{{"kind": "userdict", "sub": "builtinseq", "uattrs": []Rec{}, "uchords": []Rec{}, "bnames": bn, "uses": []Rec{}, "idle": []Rec{},
 					"seqOk": ok, "seqKeys": strsChars(keys), "seqOns": runs}}
 			case "builtin":
 				a := playOne(c, cs(k, "name"), nil)
@@ -309,7 +309,12 @@ func init() {
 					}
 				}
 				runs, sok := playSeq(c, seqKeys, extra)
-				return []Rec{{"kind": "userdict", "uattrs": ra, "uchords": rc, "bnames": bn, "uses": uses, "seqOk": sok, "seqKeys": strsChars(seqKeys), "seqOns": runs}}
+				// the dictionary is accepted or rejected as a whole, also by a run that needs no chord from it (`info chord list` only lists what it was given and is not asked)
+				rr := c.crd(append([]string{"write", "parse"}, extra...), []byte("- values: [\"1\"]\n- values: [\"1/2\"]\n"))
+				idle := []Rec{
+					{"cmd": "write parse (rests only)", "ok": rr.Exit == 0 && len(rr.Stdout) > 0, "exit": rr.Exit, "stdoutLen": len(rr.Stdout), "stderrLen": len(rr.Stderr), "panic": rr.Panic, "terminated": !rr.TimedOut},
+				}
+				return []Rec{{"kind": "userdict", "uattrs": ra, "uchords": rc, "bnames": bn, "uses": uses, "seqOk": sok, "seqKeys": strsChars(seqKeys), "seqOns": runs, "idle": idle}}
 			}
 			return nil
 		},
